@@ -18,20 +18,22 @@ const repoMod = "github.com/google/osv-scalibr"
 
 // World is everything loaded from /repo for one run.
 type World struct {
-	RepoDir   string
-	Fset      *token.FileSet
-	Pkgs      map[string]*packages.Package // by import path (all, incl. deps)
-	Roots     []*packages.Package
-	Prog      *ssa.Program
-	SSAPkgs   map[string]*ssa.Package
-	Contracts map[*ssa.Function]*Contract
-	ByName    map[string]*Contract // "pkgpath.FuncName" -> contract (pre-resolution)
-	ISpecs    map[string]*Contract // "pkgpath.Iface.Method"
-	SpecFns   map[string]*SpecFunc // "pkgpath.name" and bare name
-	Ghosts    map[string]*GhostVar
-	Lemmas    []*Lemma
-	Axioms    []*Axiom
-	Trusted   map[string]bool // names of trusted stdlib handlers actually used
+	RepoDir       string
+	Fset          *token.FileSet
+	Pkgs          map[string]*packages.Package // by import path (all, incl. deps)
+	Roots         []*packages.Package
+	Prog          *ssa.Program
+	SSAPkgs       map[string]*ssa.Package
+	Contracts     map[*ssa.Function]*Contract
+	ByName        map[string]*Contract // "pkgpath.FuncName" -> contract (pre-resolution)
+	ISpecs        map[string]*Contract // "pkgpath.Iface.Method"
+	SpecFns       map[string]*SpecFunc // "pkgpath.name" and bare name
+	Ghosts        map[string]*GhostVar
+	Lemmas        []*Lemma
+	Axioms        []*Axiom
+	Trusted       map[string]bool // names of trusted stdlib handlers actually used
+	sentinelIDs   map[string]int
+	sentinelCache map[string]bool
 }
 
 func loadWorld(repoDir string, patterns []string, overlay map[string][]byte) (*World, error) {
@@ -162,4 +164,48 @@ func (w *World) fileOf(pos token.Pos) (*ast.File, *packages.Package) {
 		}
 	}
 	return nil, nil
+}
+
+// isRepoSentinel: G_<pkgpath>.<name> is an error variable initialised once by errors.New in init and never stored to elsewhere.
+func (w *World) isRepoSentinel(heapName string) bool {
+	if v, ok := w.sentinelCache[heapName]; ok {
+		return v
+	}
+	if w.sentinelCache == nil {
+		w.sentinelCache = map[string]bool{}
+	}
+	res := false
+	defer func() { w.sentinelCache[heapName] = res }()
+	full := strings.TrimPrefix(heapName, "G_")
+	i := strings.LastIndex(full, ".")
+	if i < 0 {
+		return false
+	}
+	sp := w.SSAPkgs[full[:i]]
+	if sp == nil {
+		return false
+	}
+	g, ok := sp.Members[full[i+1:]].(*ssa.Global)
+	if !ok || !types.IsInterface(deref(g.Type())) {
+		return false
+	}
+	stores, good := 0, 0
+	for fn := range allFuncsOf(w, sp) {
+		for _, b := range fn.Blocks {
+			for _, ins := range b.Instrs {
+				st, ok := ins.(*ssa.Store)
+				if !ok || st.Addr != ssa.Value(g) {
+					continue
+				}
+				stores++
+				if call, ok := st.Val.(*ssa.Call); ok && strings.HasPrefix(fn.Name(), "init") {
+					if cf := call.Common().StaticCallee(); cf != nil && cf.String() == "errors.New" {
+						good++
+					}
+				}
+			}
+		}
+	}
+	res = stores == 1 && good == 1
+	return res
 }
